@@ -26,6 +26,8 @@ MISSED = {
     "C07-c": "every case met a fresh validator and no fault duplicated a record: new fault `AddRecordTwice`, and half of the faults on the top-level response now meet a validator whose validation cache was warmed with the genuine responses",
     "C07-d": "the order of records inside an RRset was never disturbed: new fault `Reverse` (order carries no meaning, the verdict must not change)",
     "C08-d": "soundness was judged on direct `verify_nsec` calls, whose input is assumed to be authenticated: new end-to-end sub-property `sound_forged_expansion_e2e` presents the wildcard owner's genuine NSEC + RRSIG under an expanded owner name to the real `DnssecDnsHandle`",
+    "C09-d": "limits were only varied on direct `verify_nsec3` calls, the end-to-end sub-property ran with the defaults: new sub-property `iteration_limits_e2e` configures `nsec3_iteration_limits` just below / at the zone's iteration count on the real `DnssecDnsHandle`",
+    "C11-d": "no query name began with an asterisk label, and the rcode of queries whose answer the check cannot predict was unconstrained: such names are generated now and an ordinary IN query inside a configured zone must not be REFUSED",
     "C12-c": "the oracle accepted both outcomes for an SOA add exactly 2^31 from the zone serial (RFC 1982: undefined); a replacement cannot leave the serial advanced, so only 'ignored' is accepted now",
     "C13-d": "handlers were always built with `SqliteZoneHandler::new`: new sub-property `configured_from_files` builds them with `try_from_config` (zone file, key files, journal), half of the cases after a restart from the journal",
     "C15-d": "the client sub-property only served direct answers with `preserve_intermediates = false`: alias answers (CNAME chain + target in one response) and both settings are generated now",
@@ -87,6 +89,18 @@ for d in sorted(glob.glob(ROOT + "/*/")):
         caught = "**missed at first** → " + MISSED[name] + " → " + caught
     rows.append("| %s %s | %s | %s |" % (name, short.replace("|", "\\|"), needs.replace("|", "\\|"), caught.replace("|", "\\|")))
 
-table = "| seed | what it needs to manifest (seeding agent's words, shortened) | caught by |\n|---|---|---|\n" + "\n".join(rows)
+names = [os.path.basename(d[:-1]) for d in sorted(glob.glob(ROOT + "/*/")) if os.path.exists(d + "meta.json")]
+r1 = [n for n in names if n[-1] in "ab"]
+r2 = [n for n in names if n[-1] in "cd"]
+summary = (
+    "Totals: %d seeded changes (round 1: %d, letters a/b; round 2: %d, letters c/d). Missed by the check as it stood "
+    "when the seed arrived: %d in round 1 (%s), %d in round 2 (%s); every one of them led to a stronger generator, a "
+    "tighter oracle or a narrower known-finding signature, and all %d are caught now.\n\n"
+    % (len(names), len(r1), len(r2),
+       len([n for n in r1 if n in MISSED]), ", ".join(n for n in r1 if n in MISSED),
+       len([n for n in r2 if n in MISSED]), ", ".join(n for n in r2 if n in MISSED) or "none",
+       len(names))
+)
+table = summary + "| seed | what it needs to manifest (seeding agent's words, shortened) | caught by |\n|---|---|---|\n" + "\n".join(rows)
 open(ROOT + "/INDEX.md", "w").write("# Independently seeded changes\n\n" + table + "\n")
 print(table)
